@@ -386,6 +386,26 @@ def replaced_weights_twin(make, term_key):
     return f"{term_key} follows the replaced weights"
 
 
+def replaced_field_twin(makeA, makeB, field, term_keys=None, canon_kw=None, **ev):
+    """an equinox module is its fields: the loss A whose public field `field` was replaced (eqx.tree_at-style, `__post_init__`
+    does not run again) by the value that field has in the constructed loss B - all other constructor arguments being equal -
+    evaluates like B.  Anything derived from the field at construction and kept elsewhere breaks the relation"""
+    from .report import Violation
+    from .specs import canon
+    A, B = makeA(), makeB()
+    A.loss = A.loss.replace_fields({field: B.loss.fields[field]})
+    _, ta = A.evaluate(**ev)
+    _, tb = B.evaluate(**ev)
+    for k in (term_keys or sorted(tb)):
+        a, b = to_at(ta[k]), to_at(tb[k])
+        if a.axes != () or b.axes != ():
+            raise Violation(k, f"value with axes {a.axes} / {b.axes}", "a scalar")
+        fa, fb = canon(a.data[()], **(canon_kw or {})), canon(b.data[()], **(canon_kw or {}))
+        if fa != fb:
+            raise Violation(k, str(fa), str(fb))
+    return f"replacing `{field}` after construction == constructing with it"
+
+
 OMITTED = object()
 
 
